@@ -13,7 +13,7 @@ BUDGET = {"quick": 150, "thorough": 900}
 RULE = ("Operation histories over a pool of 6 names (ASCII, non-ASCII, with a space, bytes-typed, an NFD/NFC pair) and 6 simple definitions (incl. filters whose only condition is false / true): "
         "add / update (onto self, existing, new) / replace (content from getfilter, with and without new name and "
         "description) / remove / enable / disable / move up|down, checked against a list model after every step. All "
-        "histories up to length 3 (quick) / 4 (thorough) over an alphabet of 18 operations on 2 names are enumerated "
+        "histories up to length 3 (quick) / 4 (thorough) over an alphabet of 20 operations (two of them definitions the factory refuses) on 2 names are enumerated "
         "exhaustively; random histories of 1-25 operations follow (per-run operation mix). Non-trivial: the history contains "
         "a refused operation, a repeat (disable twice...) or a boundary move. Distinct = abstract states reached "
         "(order of names x enabled bits) together with the last operation's outcome class.")
@@ -41,6 +41,7 @@ ALPHABET = [
     ("remove", A), ("remove", B),
     ("enable", A), ("disable", A), ("disable", B), ("enable", B),
     ("move", A, "up"), ("move", A, "down"), ("move", B, "up"), ("move", B, "down"),
+    ("addbad", A, 3), ("updatebad", B, A, 0),
 ]
 
 
@@ -87,6 +88,23 @@ def apply(st, op):
         conds, acts, mt = DEFS[di]
         rc = E.classify(lambda: fs.updatefilter(o, n, conds, acts, mt))
         mc = model.update(uname(o), uname(n), di, None, None)
+    elif kind in ("addbad", "updatebad"):
+        # a definition the factory refuses: whatever it answers, the list of filters stays as it is
+        conds, acts, mt = E.BAD_DEFS[op[-1]]
+        if kind == "addbad":
+            rc = E.classify(lambda: (fs.addfilter(op[1], conds, acts, mt), True)[1])
+        else:
+            rc = E.classify(lambda: fs.updatefilter(op[1], op[2], conds, acts, mt))
+        if rc[0] == "ok":
+            return "accepted"      # not a refused definition for this implementation: nothing to say
+        if kind == "updatebad" and rc[0].startswith("raised:"):
+            # the property does not say whether a refused update is all-or-nothing: sievelib renames first and builds the
+            # content afterwards, so the filter may already carry its new name (with its old content, position and status)
+            i = model.find(uname(op[1]))
+            names = [E.fattr(f, "name") for f in fs.filters]
+            if i != -1 and i < len(names) and names[i] == uname(op[2]) and model.find(uname(op[2])) == -1:
+                model.filters[i].name = uname(op[2])
+        return "any", "any", None
     elif kind == "replace":
         _, o, src, newn, desc = op
         content = fs.getfilter(src)
@@ -189,8 +207,12 @@ def check_state(st, op, before_text, rc, mc):
 
 def draw_op(wl, mix):
     k = wl.weighted("op", mix)
-    kind = ["add", "update", "replace", "remove", "enable", "disable", "move"][k]
+    kind = ["add", "update", "replace", "remove", "enable", "disable", "move", "bad"][k]
     n = NAMES[wl.int("name", len(NAMES))]
+    if kind == "bad":
+        if wl.flag("badupdate", 1, 3):
+            return ("updatebad", n, NAMES[wl.int("name2", len(NAMES))], wl.int("baddef", len(E.BAD_DEFS)))
+        return ("addbad", n, wl.int("baddef", len(E.BAD_DEFS)))
     if kind == "add":
         return ("add", n, wl.int("def", len(DEFS)))
     if kind == "update":
@@ -216,7 +238,7 @@ def run(ch, config, res):
         ops = None
         with ch.scope("run"):
             n = 1 + wl.int("nops", 25)
-            mix = [1 + wl.int("w%d" % i, 4) for i in range(7)]
+            mix = [1 + wl.int("w%d" % i, 4) for i in range(7)] + [wl.int("w7", 3)]
     i = 0
     nontrivial = False
     last = None
@@ -235,6 +257,8 @@ def run(ch, config, res):
         r = apply(st, op)
         if r is None:
             continue
+        if r == "accepted":
+            break
         rc, mc, exc = r
         if isinstance(exc, str):
             failure = Failure(PROP, "C12.content", exc, {})
